@@ -78,7 +78,7 @@ func Load(verifDir, harnessPkg string) (*Loaded, error) {
 		Mode:    packages.LoadAllSyntax,
 		Dir:     verifDir,
 		Overlay: ov,
-		Env:     append(os.Environ(), "GOFLAGS=-mod=mod", "GOPROXY=off", "GOSUMDB=off", "GOTOOLCHAIN=local", "CGO_ENABLED=0"),
+		Env:     GoEnv(),
 	}
 	pkgs, err := packages.Load(cfg, harnessPkg)
 	if err != nil {
@@ -94,4 +94,10 @@ func Load(verifDir, harnessPkg string) (*Loaded, error) {
 	}
 	p := &interp.Program{Prog: prog, Sizes: types.SizesFor("gc", "amd64"), InitAllow: initAllow}
 	return &Loaded{P: p, Main: spkgs[0], Pkgs: pkgs}, nil
+}
+
+// GoEnv is the offline toolchain environment used for every go invocation.
+func GoEnv() []string {
+	return append(os.Environ(), "GOFLAGS=-mod=mod", "GOPROXY=off", "GOSUMDB=off", "GOTOOLCHAIN=local", "CGO_ENABLED=0",
+		"PATH=/opt/veriftools/go1.26.8/bin:"+os.Getenv("PATH"))
 }
